@@ -749,16 +749,22 @@ pub fn mon_c04(_sim: &Sim, step: &Step, st: &mut Stats) -> Result<(), String> {
 // C12
 
 fn protection_error(e: &str) -> bool {
-    e.contains("Slippage limit exceeded")
-        || e.contains("slippage")
-        || e.contains("Minimum receive")
+    // by wording, case-insensitively and a little wider than today's texts ("Slippage limit
+    // exceeded", "Minimum receive amount not met", "Operation disabled, …"), so that a reworded
+    // message does not turn into an alarm
+    let e = e.to_lowercase();
+    e.contains("slippage")
+        || e.contains("spread")
         || e.contains("minimum receive")
-        || e.contains("MinimumReceive")
+        || e.contains("minimumreceive")
+        || e.contains("min receive")
         || e.contains("disabled")
-        || e.contains("Belief price")
+        || e.contains("belief")
         // the slippage assertion divides by (return + spread): a swap whose return and spread are
         // both zero panics there, i.e. inside the price protection (the quote path has no such division)
-        || e.contains("Denominator must not be zero")
+        || e.contains("denominator must not be zero")
+        || e.contains("divide by zero")
+        || e.contains("division by zero")
 }
 
 pub fn mon_c12(_sim: &Sim, step: &Step, st: &mut Stats) -> Result<(), String> {
